@@ -109,13 +109,7 @@ def run_impl(case):
         warnings.simplefilter("ignore")
         interp = {}
         for n in regd:
-            v = ds[n]
-            if not set(v.dims) <= set(arr.dims):
-                try:
-                    v = g.interp_like(v, arr, "extend", None)
-                except Exception:
-                    v = None
-            interp[n] = v
+            interp[n] = to_position(ds[n], arr.dims)
         for k in (1, 2, 3):
             for combo in itertools.combinations(regd, k):
                 if any(interp[n] is None for n in combo):
@@ -126,6 +120,58 @@ def run_impl(case):
                 if set(p.dims) == set(m.dims) and np.array_equal(p.transpose(*m.dims).values, m.values):
                     cands.append(sorted(combo, key=lambda n: -len(KEY[n])))
     return {"cands": cands, "warned": warned, "dims_ok": set(m.dims) <= set(arr.dims)}
+
+
+POSOF = {"xc": "center", "xl": "left", "xo": "outer", "yc": "center", "yl": "left", "zc": "center"}
+NCELLS = {"X": 3, "Y": 2, "Z": 2}
+
+
+def _coords2(pos, n):
+    """doubled coordinates of the points of a position on an axis of n cells"""
+    return {"center": [2 * i + 1 for i in range(n)], "left": [2 * i for i in range(n)],
+            "right": [2 * i + 2 for i in range(n)], "outer": [2 * i for i in range(n + 1)],
+            "inner": [2 * i + 2 for i in range(n - 1)]}[pos]
+
+
+def _hop(vals, axis_num, src, dst, n):
+    """two-point average onto the neighbouring position, nearest value beyond the ends -- written from the
+    geometry, independently of xgcm"""
+    import numpy as np
+    sc, dc = _coords2(src, n), _coords2(dst, n)
+
+    def take(x):
+        # the source point at doubled coordinate x, or the nearest one
+        j = min(range(len(sc)), key=lambda k: (abs(sc[k] - x), k)) if x not in sc else sc.index(x)
+        return np.take(vals, j, axis=axis_num)
+    return np.stack([(take(x - 1) + take(x + 1)) / 2.0 for x in dc], axis=axis_num)
+
+
+def to_position(v, arr_dims):
+    """the registered metric v brought to the position of an array with dims arr_dims: along every axis
+    where they differ, to the centre first and from there to the array's position (None if the array
+    lacks a dimension of the metric's axis)"""
+    import xarray as xr
+    vals = v.values
+    dims = list(v.dims)
+    for ax, adims in AXDIMS.items():
+        dm = [d for d in dims if d in adims]
+        da = [d for d in arr_dims if d in adims]
+        if not dm:
+            continue
+        if not da:
+            return None
+        dm, da = dm[0], da[0]
+        if dm == da:
+            continue
+        k = dims.index(dm)
+        src, dst = POSOF[dm], POSOF[da]
+        if src != "center":
+            vals = _hop(vals, k, src, "center", NCELLS[ax])
+            src = "center"
+        if dst != "center":
+            vals = _hop(vals, k, "center", dst, NCELLS[ax])
+        dims[k] = da
+    return xr.DataArray(vals, dims=dims)
 
 
 def cstrs(l):
